@@ -40,6 +40,20 @@ def concrete_model(p, cse, env):
     return {s: float(out.data[ss.index(s), 0]) for s in p.state}
 
 
+def concrete_model_sequence(p, cse, envs):
+    """Real code in floats: ONE compiled model, evaluated at each env in turn."""
+    from formak import python
+
+    outs = []
+    with quiet():
+        pm = python.compile(_ui(p), pyh.float_calibration_map(p, envs[0]), config=pyh.py_config(cse))
+        ss = p.s_state()
+        for env in envs:
+            out = pm.model(float(env[p.dt]), pm.State(**{s: float(env[s]) for s in p.state}), pm.Control(**{c: float(env[c]) for c in p.control}))
+            outs.append({s: float(out.data[ss.index(s), 0]) for s in p.state})
+    return outs
+
+
 def task(pd, cse, tier, seed):
     p = pd
     part = Part()
@@ -69,18 +83,22 @@ def task(pd, cse, tier, seed):
         concrete.append((pt, got, want))
 
     # --- symbolic execution of the real code
+    env2 = pyh.second_env(env, keep=p.calibration)
+
     def harness():
         with installed(), quiet():
             pm = python.compile(_ui(p), pyh.sym_calibration_map(p, env), config=pyh.py_config(cse))
             out = pm.model(SymReal(env[p.dt]), pm.State(**pyh.sym_state_kwargs(p.state, env)), pm.Control(**pyh.sym_state_kwargs(p.control, env)))
-        return out
+            # history dimension: a later call on the same compiled model with independent inputs
+            out2 = pm.model(SymReal(env2[p.dt]), pm.State(**pyh.sym_state_kwargs(p.state, env2)), pm.Control(**pyh.sym_state_kwargs(p.control, env2)))
+        return out, out2
 
     leaves = explore(harness, assumes=assumes)
     part.leaves(leaves)
     if len(leaves) != 1 or leaves[0].status != "ok":
         part.harness_error(f"{key_base}: expected one ok path, got {leaves}")
         return part.d
-    out = leaves[0].value
+    out, out2 = leaves[0].value
     ss = p.s_state()
     impl = {s: lift(out.data[ss.index(s), 0]) for s in p.state}
     reach(part, key_base + "/assumptions-sat", assumes)
@@ -101,6 +119,24 @@ def task(pd, cse, tier, seed):
 
     for s in p.state:
         st = prove_equal(part, PID, f"{key_base}/model[{s}]==spec", impl[s], spec[s], assumes, tmo, replay=mk_replay(s), key=f"{key_base}/model[{s}]", info={"program": p.id, "cse": cse, "state": s, "kind": "model"}, all_vars=env)
+    # second call on the same object, fresh inputs: must be the specification at the *new* inputs
+    assumes2 = assumes + [pyh.subst_env(a, env, env2) for a in assumes]
+
+    def mk_replay2(s):
+        def replay(e):
+            e1 = {n: e.get(n, 0.5) for n in env}
+            e2 = {n: e.get(env2[n].decl().name(), 0.5) for n in env}
+            for c in p.calibration:
+                e2[c] = e1[c]
+            got = concrete_model_sequence(p, cse, [e1, e2])[1]
+            return {"impl": got[s], "spec": X.evalf(p.update[s], e2)}
+
+        return replay
+
+    allv2 = dict(env)
+    allv2.update({v.decl().name(): v for v in env2.values()})
+    for s in p.state:
+        prove_equal(part, PID, f"{key_base}/second call model[{s}]==spec at the new inputs", lift(out2.data[ss.index(s), 0]), pyh.subst_env(spec[s], env, env2), assumes2, tmo, replay=mk_replay2(s), key=f"{key_base}/second-call[{s}]", info={"program": p.id, "cse": cse, "state": s, "kind": "second-call"}, all_vars=allv2)
     part.sample({"program": p.id, "cse": cse, "state": ss[0], "impl": str(z3.simplify(impl[ss[0]]))[:200], "spec": str(spec[ss[0]])[:200]})
     return part.d
 
@@ -186,6 +222,15 @@ def replay(path):
         print(f"REPRODUCED: real code raises {type(e).__name__}: {e}")
         return 1
     bad = {s: (got[s], want[s]) for s in p.state if not approx_equal(got[s], want[s])}
+    if info.get("kind") == "second-call":
+        e1 = {n: env.get(n, 0.5) for n in pyh.input_env(p)}
+        e2 = {n: env.get(n + "__2", e1[n]) for n in e1}
+        got = concrete_model_sequence(p, cse, [e1, e2])[1]
+        want2 = pyh.evalf_spec(p.update, e2)
+        bad = {s: (got[s], want2[s]) for s in p.state if not approx_equal(got[s], want2[s])}
+        print("second call:", got, "want", want2)
+        print("REPRODUCED" if bad else "not reproduced")
+        return 1 if bad else 0
     if info.get("kind") == "cse-pair":
         other = concrete_model(p, False, env)
         bad = {s: (got[s], other[s]) for s in p.state if not approx_equal(got[s], other[s])}
